@@ -78,6 +78,10 @@ def pairs(tier):
           ("same_layout_other_host_order", [S["two_layer"], variant_host_order(S["two_layer"])]),
           ("different_sizes", [S["user_only"], S["fw_asym"]]),
           ("same_sizes_other_names", [S["deny"], variant_renamed(S["deny"])])]
+    # parameterised action spaces built from the very same Scenario object
+    ps.append(("shared_scenario_object_param_actions", [S["os_mix"], S["os_mix"]]))
+    # one environment stays idle while the other makes a long run of calls
+    ps.append(("long_one_sided_history", [S["twins"], S["twins"]]))
     if tier == "thorough":
         ps += [("three_envs", [S["user_only"], S["deny"], variant_content(S["deny"])]),
                ("same_scenario_bigger", [S["chain"], S["chain"]]),
@@ -136,6 +140,9 @@ def snap(env):
 def run_pair(job):
     t0 = time.time()
     name, specs, depth, max_sched = job["name"], job["specs"], job["depth"], job.get("max_schedules")
+    share_object = name.startswith("shared_scenario_object")
+    flat_actions = not share_object
+    long_run = 160 if name.startswith("long_one_sided") else 0
     res = dict(name=name, machinery=None, fails=[], known=[], schedules=0, events=0, states=0, transitions=0, logs=[])
     wd = tlc.scratch_dir()
     try:
@@ -175,11 +182,30 @@ def run_pair(job):
                 os.makedirs(ydir)
                 yaml_path[i] = corpus.write_yaml(sp, os.path.join(ydir, sp["name"] + ".yaml"))
 
+        shared = {}
+
         def fresh_scenario(i):
             import nasim
+            if share_object:
+                if i not in shared:
+                    shared[i] = corpus.build_dict_scenario(spec_by[i])
+                return shared[i]
             if i in yaml_path:
                 return nasim.load_scenario(yaml_path[i])
             return corpus.build_dict_scenario(spec_by[i])
+
+        if long_run:
+            # hand-written schedules on top of TLC's: both built, then one side only for a long time, then the
+            # idle one acts again (same layout: nothing is foreign)
+            s_ = ids[0]
+            body = [("step" if j % 7 else "reset", 2, s_, False, False) for j in range(long_run)]
+            scheds = scheds[:60] + [[("create", 1, s_, False, False), ("create", 2, s_, False, False)] + body
+                                    + [("step", 1, s_, False, False), ("reset", 1, s_, False, False),
+                                       ("step", 1, s_, False, False)],
+                                   [("create", 2, s_, False, False), ("create", 1, s_, False, False),
+                                    ("step", 1, s_, False, False)] + body
+                                   + [("step", 1, s_, False, False)]]
+            res["schedules"] = len(scheds)
         cs_by = {i: corpus.cs_of(sp) for sp, i in zip(specs, ids)}
         plans = {}
         for i, cs in cs_by.items():
@@ -196,7 +222,7 @@ def run_pair(job):
                 rec = recs[s]
                 if kind == "create":
                     eid += 1
-                    ev = rec.create(eid, fresh_scenario(s), False, True, True)
+                    ev = rec.create(eid, fresh_scenario(s), False, flat_actions, True)
                     live[slot] = [eid, s, rec.envs[eid], 0]
                 elif kind == "reset":
                     ev = rec.reset(live[slot][0])
@@ -204,7 +230,12 @@ def run_pair(job):
                     k = plans[s][live[slot][3] % len(plans[s])]
                     live[slot][3] += 1
                     a = pyref.flat_action(cs_by[s], k)
-                    ev = rec.step(live[slot][0], ("int", k - 1), pyref.draw_for(a["prob"], True, 0))
+                    if flat_actions:
+                        sp_ = ("int", k - 1)
+                    else:
+                        from harness.dynamic import encode_param
+                        sp_ = ("ndarray", encode_param(cs_by[s], k))
+                    ev = rec.step(live[slot][0], sp_, pyref.draw_for(a["prob"], True, 0))
                 changed, dec_changed = [], []
                 for sl, b in before.items():
                     a_ = snap(live[sl][2])
